@@ -1,0 +1,38 @@
+// Verification hook. Compiled only with `--cfg sdjwt_verif` (never in normal builds).
+//
+// Appends one JSON line per public API call to the file named by $SDJWT_VERIF_TRACE: a "begin" record with the
+// raw arguments when the call starts and an "end" record with the raw result when it returns Ok. A call that
+// returns Err (or panics) leaves a begin without an end. Records carry the process id, the thread id and a
+// per-process sequence number; nothing is ordered by wall-clock time across threads.
+
+use serde_json::{json, Value};
+use std::io::Write;
+use std::sync::atomic::{AtomicU64, Ordering};
+use std::sync::Mutex;
+
+static SEQ: AtomicU64 = AtomicU64::new(1);
+static LOCK: Mutex<()> = Mutex::new(());
+
+fn write(mut record: Value) {
+    let Ok(path) = std::env::var("SDJWT_VERIF_TRACE") else { return };
+    let _guard = LOCK.lock();
+    record["seq"] = json!(SEQ.fetch_add(1, Ordering::SeqCst));
+    record["pid"] = json!(std::process::id());
+    record["thread"] = json!(format!("{:?}", std::thread::current().id()));
+    if let Ok(mut f) = std::fs::OpenOptions::new().create(true).append(true).open(path) {
+        let mut line = record.to_string();
+        line.push('\n');
+        let _ = f.write_all(line.as_bytes());
+    }
+}
+
+/// Returns the id that the matching `end` must quote.
+pub(crate) fn begin(api: &str, args: Value) -> u64 {
+    let id = SEQ.fetch_add(1, Ordering::SeqCst);
+    write(json!({"ph": "begin", "api": api, "call": id, "args": args}));
+    id
+}
+
+pub(crate) fn end(call: u64, api: &str, result: Value) {
+    write(json!({"ph": "end", "api": api, "call": call, "result": result}));
+}
